@@ -130,7 +130,14 @@ class ExprMixin:
         a = self.skip(arg) if self.skip(arg).get('valueCategory') in ('lvalue', 'xvalue') else arg
         core = self.skip(arg)
         if self.is_lv(core):
-            return self.addr(self.expr(core))
+            lv = self.expr(core)
+            if '.data[' in lv and self.wb is not None:
+                # pointer to an element nested in a container: pass a copy, write it back after the call
+                # (CBMC 6.11 pitfall, DESIGN §2 item 8); same semantics unless the callee keeps the pointer
+                t = self.tyq(core['type']); tn = self.tmp('ref')
+                self.wb.append((t.c, tn, lv)); self.rules['nested-element-ref-arg-by-copy'] += 1
+                return '&' + tn
+            return self.addr(lv)
         # rvalue bound to a reference: materialise a temporary
         t = self.tyq(arg['type'])
         tn = self.tmp('tmp')
@@ -289,6 +296,12 @@ class ExprMixin:
 
     def static_table(self, cn, t, d, init):
         """static lookup table initialised from an initializer list -> static const C aggregate"""
+        if t.kind == 'rec' and not t.const:
+            # function-local static OBJECT (shared by all calls).  Its one-time construction is dropped: the object is a
+            # file-scope global that the harness sets to an arbitrary state (every history the object may have had)
+            self.rules['static-local-object'] += 1
+            self.dropped['one-time construction of function-local static object'] += 1
+            return '%s %s; /* function-local static object */' % (t.c, cn)
         core = self.skip(init)
         il = None
         for a in core.get('inner', []):
@@ -378,7 +391,10 @@ class ExprMixin:
             try: b = self.expr(r)
             finally: self.inline_checks -= 1
             if len(self.pre) != npre:
-                raise Unsupported('temporary needed inside short-circuit operand at ' + self.where(n))
+                # temporaries of the right operand live (and are evaluated) only if the operand is: GNU statement expression
+                stm = self.pre[npre:]; del self.pre[npre:]
+                self.rules['short-circuit-temporaries'] += 1
+                b = '({ %s %s; })' % (' '.join(stm), b)
             return '(%s %s %s)' % (a, op, b)
         if op == ',':
             return '(%s, %s)' % (self.expr(l), self.expr(r))
@@ -600,8 +616,19 @@ class ExprMixin:
         return cn + '()'
 
     # ------------------------------------------------------------ calls
+    def wrap_wb(self, d, call):
+        """wrap a call whose reference arguments were passed as copies: declare, call, write back"""
+        wb = self.wb or []; self.wb = None
+        if not wb: return call
+        rt = self.ret_type(d)
+        decl = ' '.join('%s %s = %s;' % (c, tn, lv) for c, tn, lv in wb); back = ' '.join('%s = %s;' % (lv, tn) for c, tn, lv in wb)
+        if rt.kind == 'void': return '({ %s %s; %s (void)0; })' % (decl, call, back)
+        if rt.ref and (not rt.const or self.big(rt)): raise Unsupported('reference result of a call with nested-element reference arguments')
+        return '({ %s %s r_ = %s; %s r_; })' % (decl, rt.c, call, back)
+
     def call_args(self, d, args, skip_first=0):
         ps = self.params_of(d)
+        self.wb = []
         out = []
         for i, p in enumerate(ps):
             if i < len(args) and args[i].get('kind') != 'CXXDefaultArgExpr':
@@ -625,6 +652,8 @@ class ExprMixin:
             return self.autostub_call(d, None, args, n)
         fn = self.want(d)
         call = '%s(%s)' % (fn, ', '.join(self.call_args(d, args)))
+        if self.wb: return self.wrap_wb(d, call)
+        self.wb = None
         return self.wrap_ref_result(d, call)
 
     def wrap_ref_result(self, d, call):
@@ -634,14 +663,14 @@ class ExprMixin:
         return call
 
     def ret_type(self, d):
-        q = d['type']['qualType']
+        q = d['type']['qualType'].replace('(anonymous namespace)', '{anon}')
         # return type = text before the parameter list's opening paren at depth 0
         depth = 0
         for i, ch in enumerate(q):
             if ch == '<': depth += 1
             elif ch == '>': depth -= 1
             elif ch == '(' and depth == 0:
-                return self.ty(q[:i].strip())
+                return self.ty(q[:i].strip().replace('{anon}', '(anon)'))
         raise Unsupported('cannot parse function type ' + q)
 
     def e_CXXMemberCallExpr(self, n, rvalue=False):
@@ -670,6 +699,7 @@ class ExprMixin:
         fn = self.want(d)
         owner = self.owner_record(d)
         a = self.call_args(d, args)
+        wb_pending = self.wb; self.wb = None
         if self.is_static_method(d):
             return self.wrap_ref_result(d, '%s(%s)' % (fn, ', '.join(a)))
         byptr = (not self.is_const_method(d)) or self.this_by_pointer(owner)
@@ -694,6 +724,9 @@ class ExprMixin:
             lv = o[2:-1]; ot = self.rec_cname(owner); tn = self.tmp('c')
             self.rules['nested-element-method-by-copy'] += 1
             return '({ %s %s = %s; %s(%s); %s = %s; (void)0; })' % (ot, tn, lv, fn, ', '.join(['&' + tn] + a), lv, tn)
+        if wb_pending:
+            self.wb = wb_pending
+            return self.wrap_wb(d, '%s(%s)' % (fn, ', '.join([o] + a)))
         return self.wrap_ref_result(d, '%s(%s)' % (fn, ', '.join([o] + a)))
 
     def e_CXXOperatorCallExpr(self, n, rvalue=False):
